@@ -91,6 +91,15 @@ pub struct HybridCfg {
     /// padding bytes that do not compress (pseudo-random) instead of one repeated byte
     #[serde(default)]
     pub incompressible: bool,
+    #[serde(default)]
+    pub flushers: Option<usize>,
+    #[serde(default)]
+    pub reclaimers: Option<usize>,
+    #[serde(default)]
+    pub clean_threshold: Option<usize>,
+    /// hashes the reinsertion filter admits (entries of these keys survive the reclaim of their block)
+    #[serde(default)]
+    pub reinsert: Vec<u64>,
 }
 
 fn default_blocks() -> usize {
@@ -234,6 +243,26 @@ impl HybridRunner {
         flag
     }
 
+    /// As `spawn_wait_flag`, but the first poll of `Store::wait` (which hands the wait request to the flushers)
+    /// happens right here, before any background task runs - as in `delete(k); wait().await` on one task.
+    pub fn spawn_wait_flag_eager(&self) -> Arc<std::sync::atomic::AtomicBool> {
+        let flag = Arc::new(std::sync::atomic::AtomicBool::new(false));
+        if let Some(cache) = self.cache.as_ref() {
+            let store = cache.storage().clone();
+            let f2 = flag.clone();
+            let mut fut: std::pin::Pin<Box<dyn std::future::Future<Output = ()> + Send>> = Box::pin(async move {
+                store.wait().await;
+                f2.store(true, Ordering::SeqCst);
+            });
+            let _g = self.rt.enter();
+            let mut cx = Context::from_waker(Waker::noop());
+            if fut.as_mut().poll(&mut cx).is_pending() {
+                self.rt.spawn(fut);
+            }
+        }
+        flag
+    }
+
     /// `Store::wait`: returns once everything submitted so far has been flushed.
     pub fn wait_flush(&mut self) -> Result<(), String> {
         let Some(cache) = self.cache.as_ref().cloned() else { return Ok(()) };
@@ -284,8 +313,14 @@ impl HybridRunner {
         };
         let engine = BlockEngineConfig::new(device)
             .with_block_size(block_size)
-            .with_flushers(1)
-            .with_reclaimers(1)
+            .with_flushers(h.flushers.unwrap_or(1))
+            .with_reclaimers(h.reclaimers.unwrap_or(1))
+            .with_clean_block_threshold(h.clean_threshold.unwrap_or(1))
+            .with_reinsertion_filter(if h.reinsert.is_empty() {
+                StorageFilter::new().with_condition(foyer::RejectAll)
+            } else {
+                StorageFilter::new().with_condition(foyer_storage::test_utils::Biased::new(h.reinsert.clone()))
+            })
             .with_indexer_shards(1)
             .with_buffer_pool_size(h.buffer_pages.map(|p| p * PAGE).unwrap_or(8 * block_size))
             .with_tombstone_log(h.tomblog)
@@ -400,6 +435,11 @@ impl HybridRunner {
 
     pub fn apply(&mut self, op: &J) -> Result<i64, String> {
         let a = op["a"].as_str().ok_or("action without name")?;
+        // "<op>_nt": the operation is immediately followed by the driver's next one (no background task runs)
+        let (a, nt) = match a.strip_suffix("_nt") {
+            Some(base) => (base, true),
+            None => (a, false),
+        };
         let k = op.get("k").and_then(|x| x.as_u64()).unwrap_or(0);
         if a == "init" {
             self.open()?;
@@ -442,6 +482,9 @@ impl HybridRunner {
                     Some(Ok(None)) => 0,
                     Some(Err(_)) => -1,
                 };
+            }
+            "sload" => {
+                res = self.store_load(k);
             }
             "fetch" => {
                 // the origin returns the current source-of-truth version (creating one if none)
@@ -504,7 +547,10 @@ impl HybridRunner {
             }
             other => return Err(format!("unknown action {other}")),
         }
-        self.turn();
+        // "noturn": the background tasks (flushers) do not get to run before the driver's next operation
+        if !nt && !op.get("noturn").and_then(|x| x.as_bool()).unwrap_or(false) {
+            self.turn();
+        }
         Ok(res)
     }
 
